@@ -159,6 +159,8 @@ def finish(ctx, meta, t0, replay_only=None):
         "wall_s": round(wall, 3),
         "violations": len(seenv),
     }
+    if getattr(ctx, "selftest", None) is not None:
+        ev["coverage"]["selftest"] = ctx.selftest
     if replay_only is None and not scratch:
         os.makedirs(os.path.join(VERIF, "evidence"), exist_ok=True)
         with open(os.path.join(VERIF, "evidence", f"{prop}.json"), "w") as fh:
